@@ -23,6 +23,7 @@ fn space(k: usize) -> ForestSpace {
     let i = || name("i");
     let atoms = vec![
         Stmt::Row(vec![l(10), Entry::Lit(0x1F, Radix::HexUp), l(0)]),
+        Stmt::Row(vec![l(11), Entry::Lit(0xB0, Radix::Hex), Entry::Lit(0xBB, Radix::HexUp)]),
         Stmt::Row(vec![Entry::Paren(bin(BinOp::Shl, i(), Expr::Lit(2, Radix::Bin))), Entry::X, Entry::Lit(8, Radix::Oct)]),
         Stmt::Row(vec![Entry::Bits(2, bin(BinOp::Le, un(UnOp::Inv, un(UnOp::Neg, i())), lit(7))), Entry::Z]),
         Stmt::Row(vec![Entry::C, Entry::Paren(ite(bin(BinOp::Ne, i(), lit(1)), Expr::Lit(255, Radix::Hex), un(UnOp::Not, i()))), l(1)]),
@@ -52,7 +53,16 @@ fn can_join(t1: &str, t2: &str) -> bool {
 }
 
 fn respellings(t: &str) -> Vec<String> {
-    let Some((v, _)) = refgrammar::lit_value(t) else { return vec![] };
+    let Some((v, _)) = refgrammar::lit_value(t) else {
+        // a literal that does not fit in 64 bits stays malformed in every radix
+        let digits = t.trim_start_matches("0x").trim_start_matches("0X");
+        if let Ok(v) = u128::from_str_radix(digits, if t.starts_with("0x") || t.starts_with("0X") { 16 } else { 10 }) {
+            let mut out = vec![format!("{v}"), format!("0x{v:x}"), format!("0X{v:X}"), format!("0b{v:b}"), format!("0{v:o}")];
+            out.retain(|s| s != t);
+            return out;
+        }
+        return vec![];
+    };
     let mut out: Vec<String> = RADIXES.iter().map(|r| lit_text(v, *r)).collect();
     out.push(format!("0x{v:X}"));
     out.push(format!("0X{v:x}"));
@@ -150,10 +160,10 @@ pub fn run(tier: Tier, seed: u64) -> i32 {
         let sp = space(k);
         let n = sp.count(k);
         // every valid program, and two malformed variants of it (verdict must stay "rejected")
-        let label = format!("programs with {k} statements (token-boundary alphabet: literals in every radix, multi-character operators, identifiers that start like keywords) and 2 malformed variants of each x all layout rewritings with <= {} deviations", if k <= 2 { 2 } else { 1 });
-        let st = par_range(&label, n * 3, &deadline, |u, st| {
-            let idx = u / 3;
-            let variant = u % 3;
+        let label = format!("programs with {k} statements (token-boundary alphabet: literals in every radix, multi-character operators, identifiers that start like keywords) and 4 malformed variants of each x all layout rewritings with <= {} deviations", if k <= 2 { 2 } else { 1 });
+        let st = par_range(&label, n * 5, &deadline, |u, st| {
+            let idx = u / 5;
+            let variant = u % 5;
             let body = sp.unrank(k, idx);
             let prog = Program { header: vec!["A".into(), "B".into(), "Q".into()], body };
             if prog.declares().len() > 1 {
@@ -172,6 +182,11 @@ pub fn run(tier: Tier, seed: u64) -> i32 {
                 2 => {
                     // one entry too many in / a stray token after the first body line
                     ls[1].toks.push("7".into());
+                }
+                3 | 4 => {
+                    // the first literal of the body does not fit in 64 bits (2^64-1 / 2^63)
+                    let Some((li, ti)) = ls.iter().enumerate().skip(1).find_map(|(li, l)| l.toks.iter().position(|t| is_lit(t)).map(|ti| (li, ti))) else { return };
+                    ls[li].toks[ti] = if variant == 3 { "0xFFFFFFFFFFFFFFFF".into() } else { "9223372036854775808".into() };
                 }
                 _ => {}
             }
